@@ -51,7 +51,10 @@ TARGETS = {
             ("py_trees/behaviours.py", "TickCounter", "update", "TickCounter_update"),
             ("py_trees/behaviours.py", "TickCounter", "initialise", "TickCounter_initialise"),
             ("py_trees/timers.py", "Timer", "update", "Timer_update"),
-            ("py_trees/timers.py", "Timer", "initialise", "Timer_initialise")],
+            ("py_trees/timers.py", "Timer", "initialise", "Timer_initialise"),
+            # the name -> (key, attribute path) helpers the blackboard-checking behaviours and the idioms register with
+            ("py_trees/blackboard.py", "Blackboard", "key", "Blackboard_key"),
+            ("py_trees/blackboard.py", "Blackboard", "key_with_attributes", "Blackboard_key_with_attributes")],
     # the four tip() methods (TipFn below): a behaviour is its id, "a behaviour or None" is Option Nat, what the
     # recursive calls on the current / decorated child / root return is a parameter
     "C19": [("py_trees/behaviour.py", "Behaviour", "tip", "Behaviour_tip"),
@@ -75,11 +78,14 @@ BRIDGE = {
     "TickCounter_initialise": "C17_gen_tickcounter_initialise",
     "Timeout_update": "C10_gen_timeout_update", "Timeout_initialise": "C10_gen_timeout_initialise",
     "Timer_update": "C17_gen_timer_update", "Timer_initialise": "C17_gen_timer_initialise",
+    "Blackboard_key": "C17_gen_blackboard_key",
+    "Blackboard_key_with_attributes": "C17_gen_blackboard_key_with_attributes",
     "Behaviour_tip": "C19_gen_behaviour_tip", "Composite_tip": "C19_gen_composite_tip_seq",
     "Decorator_tip": "C19_gen_decorator_tip", "BehaviourTree_tip": "C19_gen_tree_tip",
 }
 
-LEAN_TYPE = {"Int": "Int", "Str": "List Char", "Status": "Status", "Bool": "Bool", "Ref": "Option Nat"}
+LEAN_TYPE = {"Int": "Int", "Str": "List Char", "Status": "Status", "Bool": "Bool", "Ref": "Option Nat",
+             "StrList": "List (List Char)", "StrPair": "List Char × List Char"}
 
 
 def find_class(tree, name):
@@ -101,7 +107,8 @@ def ann_type(a):
         return None
     s = ast.unparse(a)
     # durations / clock readings are floats in the code and integers in the model (integer clock, DESIGN §3)
-    return {"int": "Int", "float": "Int", "str": "Str", "bool": "Bool", "common.Status": "Status"}.get(s)
+    return {"int": "Int", "float": "Int", "str": "Str", "bool": "Bool", "common.Status": "Status",
+            "typing.Tuple[str, str]": "StrPair", "Tuple[str, str]": "StrPair", "tuple[str, str]": "StrPair"}.get(s)
 
 
 def is_status_const(e):
@@ -324,6 +331,19 @@ class Fn(object):
                 if f.attr == "strip":
                     return "(Py.strip %s %s)" % (a, b), "Str"
                 return "(Py.%s %s %s)" % (f.attr, a, b), "Bool"
+            if isinstance(f, ast.Attribute) and f.attr == "split" and len(e.args) == 1 and not e.keywords \
+                    and isinstance(e.args[0], ast.Constant) and isinstance(e.args[0].value, str) \
+                    and len(e.args[0].value) == 1 and e.args[0].value not in "'\\":
+                a, ta = self.expr(f.value, env)
+                if ta != "Str":
+                    raise Unsupported("split on " + ta)
+                return "(Py.split1 %s '%s')" % (a, e.args[0].value), "StrList"
+            if isinstance(f, ast.Attribute) and f.attr == "join" and len(e.args) == 1 and not e.keywords:
+                a, ta = self.expr(f.value, env)
+                b, tb = self.expr(e.args[0], env)
+                if ta != "Str" or tb != "StrList":
+                    raise Unsupported("join of %s on %s" % (tb, ta))
+                return "(Py.join %s %s)" % (a, b), "Str"
             if isinstance(f, ast.Attribute) and f.attr == "format" and isinstance(f.value, ast.Constant) \
                     and isinstance(f.value.value, str) and not e.keywords:
                 pieces = f.value.value.split("{}")
@@ -340,6 +360,22 @@ class Fn(object):
                         out.append(a)
                 return "(" + " ++ ".join(out or ["([] : List Char)"]) + ")", "Str"
             raise Unsupported("call " + ast.unparse(e))
+        if isinstance(e, ast.Subscript) and isinstance(e.slice, ast.Constant) and e.slice.value == 0:
+            a, ta = self.expr(e.value, env)
+            if ta != "StrList":
+                raise Unsupported("indexing of " + ta)
+            return "(Py.item0 %s)" % a, "Str"
+        if isinstance(e, ast.Tuple) and len(e.elts) == 2:
+            a, ta = self.expr(e.elts[0], env)
+            b, tb = self.expr(e.elts[1], env)
+            if ta != "Str" or tb != "Str":
+                raise Unsupported("tuple of %s and %s" % (ta, tb))
+            return "(%s, %s)" % (a, b), "StrPair"
+        if isinstance(e, ast.Subscript) and isinstance(e.slice, ast.Slice) and e.slice.upper is None \
+                and e.slice.step is None and isinstance(e.slice.lower, ast.Constant) \
+                and isinstance(e.slice.lower.value, int) and e.slice.lower.value >= 0 \
+                and self.expr(e.value, env)[1] == "StrList":
+            return "(Py.dropL %s %d)" % (self.expr(e.value, env)[0], e.slice.lower.value), "StrList"
         if isinstance(e, ast.Subscript) and isinstance(e.slice, ast.Slice) and e.slice.upper is None \
                 and e.slice.step is None and e.slice.lower is not None:
             a, ta = self.expr(e.value, env)
